@@ -44,6 +44,7 @@ PROPS["C11"] = dict(
         dict(name="repeat", quick=16, thorough=400, **_REPLICA),
         dict(name="fresh", quick=16, thorough=300, **_REPLICA),
         dict(name="restart", quick=12, thorough=200, **_REPLICA),
+        dict(name="abci", quick=16, thorough=300, **_REPLICA),
         dict(name="clock", quick=12, thorough=96, shard=1, **_REPLICA),
     ],
     driver_timeout={"quick": 600, "thorough": 7200},
@@ -53,7 +54,9 @@ PROPS["C11"] = dict(
          "token/nft/mt/record/htlc/coinswap/farm/random/service traffic, 5-75 blocks) executed by two replicas that differ in "
          "exactly one dimension (fresh OS process; repeated run in one process; 20 further ExportGenesis of one state; "
          "wall clock straddling the 300 s expiry of the price feed; app object rebuilt from the dumped stores at block "
-         "boundaries). Observed per block: outcome kind + response digest of every tx, begin/end-block outcome, SHA-256 of "
+         "boundaries; stream abci: real InitChain / FinalizeBlock with signed transactions through the ante handlers / Commit, "
+         "in-memory node vs on-disk node closed and re-opened from disk at block boundaries, additionally observing the app "
+         "hash and code/codespace/data/gas of every tx). Observed per block: outcome kind + response digest of every tx, begin/end-block outcome, SHA-256 of "
          "the ordered dump of each of the ten irismod stores, balances of all actors and module accounts; finally the "
          "exported genesis bytes of the ten modules. non-trivial = the history touches >= 5 modules with a successful "
          "message and contains >= 1 end/begin-block-driven transition; distinct = by hash of the history",
@@ -73,6 +76,8 @@ PROPS["C11"] = dict(
         13: "repeated ExportGenesis of one unchanged state produced different bytes",
         14: "two executions of the same history at wall-clock times straddling a duration threshold differ",
         15: "a node rebuilt from its stores at a block boundary diverges from one that kept running",
+        16: "real ABCI execution (signed txs, FinalizeBlock/Commit): a node closed and re-opened from disk at block "
+            "boundaries shows a different app hash / tx result / store / export than one that kept running in memory",
     },
     trusted_base=[
         "the call-graph translator harness/cmd/determinism/cg (go/packages + go/ssa of x/tools v0.29.0, CHA for interface "
@@ -82,7 +87,8 @@ PROPS["C11"] = dict(
         "QuantisedFloat entries assume IEEE-754 float64 and the same Go build on every node (math.Log/Pow differ on s390x assembly)",
         "runtime behaviour outside irismod's own code: goroutine scheduling inside CometBFT/IAVL, the Go map implementation, "
         "hardware floats — not expressible in the Gallina model; covered only as far as replica differencing exercises it",
-        "restart is approximated by rebuilding the app object over a dump of all KV stores (IAVL persistence itself is not exercised)",
+        "stream restart approximates a restart by rebuilding the app object over a dump of all KV stores; stream abci does the "
+        "real thing (goleveldb closed and re-opened, IAVL loaded from disk) on the same histories",
     ],
     assumptions=[
         "events and log text are not observables (state, tx result kind + response bytes, exported genesis are)",
